@@ -8,7 +8,35 @@ let z_of_int n = if n = 0 then Z0 else if n > 0 then Zpos (pos_of_int n) else Zn
 let rec int_of_pos = function XH -> 1 | XO p -> 2 * int_of_pos p | XI p -> 2 * int_of_pos p + 1
 let int_of_z = function Z0 -> 0 | Zpos p -> int_of_pos p | Zneg p -> - (int_of_pos p)
 
-(* big integers that do not fit in 63 bits are not used on the wire *)
+(* numbers beyond 61 bits go through the extracted Z arithmetic, digit by digit *)
+let rec pos_bits = function XH -> 1 | XO p -> 1 + pos_bits p | XI p -> 1 + pos_bits p
+let z_small = function Z0 -> true | Zpos p -> pos_bits p <= 60 | Zneg p -> pos_bits p <= 60
+let z_of_string (s:string) : z =
+  let n = String.length s in
+  if n <= 17 then z_of_int (int_of_string s)
+  else begin
+    let neg = s.[0] = '-' in
+    let acc = ref Z0 in
+    for k = (if neg then 1 else 0) to n - 1 do
+      acc := z_push_digit !acc (z_of_int (Char.code s.[k] - 48))
+    done;
+    if neg then z_neg !acc else !acc
+  end
+let string_of_z (v:z) : string =
+  if z_small v then string_of_int (int_of_z v)
+  else begin
+    let neg = z_is_neg v in
+    let cur = ref (if neg then z_neg v else v) in
+    let digits = Buffer.create 24 in
+    while not (z_is_zero !cur) do
+      let (q, r) = z_pop_digit !cur in
+      Buffer.add_char digits (Char.chr (48 + int_of_z r));
+      cur := q
+    done;
+    let d = Buffer.contents digits in
+    let m = String.length d in
+    (if neg then "-" else "") ^ String.init m (fun k -> d.[m - 1 - k])
+  end
 
 let parse (s:string) (pos:int ref) : val0 =
   let n = String.length s in
@@ -31,12 +59,12 @@ let parse (s:string) (pos:int ref) : val0 =
       if s.[!pos] = '-' then incr pos;
       while !pos < n && s.[!pos] >= '0' && s.[!pos] <= '9' do incr pos done;
       if !pos = st then failwith ("bad char at " ^ string_of_int st);
-      VZ (z_of_int (int_of_string (String.sub s st (!pos - st))))
+      VZ (z_of_string (String.sub s st (!pos - st)))
     end
   in value ()
 
 let rec print buf = function
-  | VZ z -> Buffer.add_string buf (string_of_int (int_of_z z))
+  | VZ z -> Buffer.add_string buf (string_of_z z)
   | VL l ->
     Buffer.add_char buf '[';
     List.iteri (fun i v -> if i > 0 then Buffer.add_char buf ','; print buf v) l;
